@@ -20,6 +20,9 @@
 (*   "param"     collapse_at / collapse_as on N parameters over Vals       *)
 (*   "weight"    collapse_weight   on M measures x P points, weights Vals  *)
 (*   "position"  collapse_position on M measures x P points, positions Vals*)
+(* Part # -1 restricts the histories to those whose first point has the    *)
+(* value Part in its first live entry (one catalogue split over several    *)
+(* TLC runs).                                                              *)
 (* The design properties at the end are checked by TLC on every history.   *)
 (***************************************************************************)
 EXTENDS CollapseDefs, TLC, Json, SequencesExt
@@ -31,7 +34,9 @@ CONSTANTS Mode, N, M, P, Vals, MaxLen, MaskLen,
           MTargets,            \* param: targets of the mask catalogue
           PrsCat,              \* param: the pair parts of collapse_as masks
           IdxCat,              \* param: the single-index parts of collapse_as masks
-          MaxMask              \* measures: largest mask (number of elements)
+          MaxMask,             \* measures: largest mask (number of elements)
+          Part                 \* -1, or: only histories whose first point has this value in its first live entry
+                               \* (splits one catalogue over several TLC runs)
 
 VARIABLES hist
 vars == <<hist>>
@@ -44,7 +49,10 @@ Points ==
     [] OTHER           -> {Flat([m \in 1..M |-> [k \in 1..P |-> Fill]], q) : q \in [1..M -> [1..P -> Vals]]}
 
 Init == hist = << >>
-Step(p) == Len(hist) < MaxLen /\ hist' = Append(hist, p)
+FirstLive == IF Mode = "position" THEN P + 1 ELSE 1
+Step(p) == /\ Len(hist) < MaxLen
+           /\ (hist = << >> /\ Part # -1) => p[FirstLive] = Part
+           /\ hist' = Append(hist, p)
 Next == \E p \in Points : Step(p)
 Spec == Init /\ [][Next]_vars
 
